@@ -13,7 +13,10 @@ RULE = ('exhaustive box: every string over {A,C,-} up to length 5 (thorough; see
         'countall (counter and prob); baskets of 0-5 sequences with i, a:b:c, (i,j), (a:b,j), and the assignment forms; '
         'every public method of _BioSeqStr/_BioBasketStr with random arguments against builtin str (extra_checks); '
         'non-trivial = distinct case that clamps a bound, uses a negative/None bound or step <> 1, crosses a gap, raises, '
-        'or works on a basket')
+        'or works on a basket; HISTORIES (300 + 300 in quick): several calls on one BioSeq / one BioBasket plus an outside '
+        'sequence - repeated and fresh-object calls, gap-aware call / length-preserving edit (item, slice, reverse, translate, '
+        '.data) / same call again, other gap strings in between, mutation of results of not-in-place calls, b[i] = b[k] and '
+        'b[i] = x followed by edits through one holder, state compared after every step')
 TRUSTED = ['CPython 3.12 str/list subscripting as modelled in coq/lib/C04_PySlice.v (PySlice_Unpack/AdjustIndices, list_subscript, '
            'list_ass_subscript), compared with the interpreter on every case',
            'the ~35 str methods themselves are CPython\'s; only sugar\'s wrappers around them are proved (parametrically) and '
@@ -24,6 +27,19 @@ TRUSTED = ['CPython 3.12 str/list subscripting as modelled in coq/lib/C04_PySlic
 ASSUMPTIONS = ['Python str restricted to ASCII code points (str.upper modelled on ASCII); lengths below 2^63',
                'metadata other than the id is not modelled (slices share the parent meta object)',
                'gap-aware slicing claimed for contiguous slices (step None or 1) only']
+
+MODELLED_FUNCS = {'sugar/core/seq.py': [
+    '_Sliceable_GetItem.__getitem__',
+    '_BioSeqStr.center', '_BioSeqStr.count', '_BioSeqStr.removeprefix', '_BioSeqStr.removesuffix', '_BioSeqStr.encode',
+    '_BioSeqStr.endswith', '_BioSeqStr.find', '_BioSeqStr.index', '_BioSeqStr.isalpha', '_BioSeqStr.isascii', '_BioSeqStr.islower',
+    '_BioSeqStr.isupper', '_BioSeqStr.ljust', '_BioSeqStr.lower', '_BioSeqStr.lstrip', '_BioSeqStr.maketrans', '_BioSeqStr.replace',
+    '_BioSeqStr.rfind', '_BioSeqStr.rindex', '_BioSeqStr.rjust', '_BioSeqStr.rstrip', '_BioSeqStr.split', '_BioSeqStr.rsplit',
+    '_BioSeqStr.splitlines', '_BioSeqStr.startswith', '_BioSeqStr.strip', '_BioSeqStr.swapcase', '_BioSeqStr.translate',
+    '_BioSeqStr.upper', '_BioBasketStr.__getattr__',
+    'BioSeq.__init__', 'BioSeq.__eq__', 'BioSeq.__len__', 'BioSeq.__setitem__', 'BioSeq.__add__', 'BioSeq.__iadd__',
+    'BioSeq.__radd__', 'BioSeq.str', 'BioSeq.gc', 'BioSeq.__getitem__', 'BioSeq.sl', 'BioSeq._getitem', 'BioSeq.reverse',
+    'BioSeq.countall', 'BioBasket.__getitem__', 'BioBasket.sl', 'BioBasket._getitem', 'BioBasket.__setitem__',
+    'BioBasket.countall']}
 
 SMALL = 'AC-'
 VALS = [None] + list(range(-7, 8))
@@ -98,9 +114,67 @@ def model_term(case):
         t = 'BSetSlJ %s %s %s %s' % (coq_strs(c['b']), coq_sl(c['sl']), coq_ix(c['j']), coq_bs(c['v']))
     elif op == 'bsetij':
         t = 'BSetIJ %s %s %s %s' % (coq_strs(c['b']), coq_z(c['i']), coq_ix(c['j']), coq_bs(c['v']))
+    elif op == 'hist':
+        t = 'OHist %s %s' % (coq_bs(c['s']), coq_list([coq_hstep(h) for h in c['steps']]))
+    elif op == 'bhist':
+        t = 'BHist %s %s %s' % (coq_strs(c['b']), coq_bs(c['x']), coq_list([coq_bstep(h) for h in c['steps']]))
     else:
         raise ValueError(op)
     return 'out (run_C04 (%s))' % t
+
+
+def coq_trans(m):
+    return coq_list(['(x%02x, x%02x)' % (ord(a), ord(b)) for a, b in m])
+
+
+def coq_hstep(h):
+    k = h['k']
+    if k == 'get':
+        return '(HGet %s %s)' % (coq_gap(h['gap']), coq_ix(h['ix']))
+    if k == 'getin':
+        return '(HGetIn %s %s)' % (coq_gap(h['gap']), coq_ix(h['ix']))
+    if k == 'set':
+        return '(HSet %s %s)' % (coq_ix(h['ix']), coq_bs(h['v']))
+    if k in ('iadd', 'add', 'radd', 'eq'):
+        return '(%s %s)' % ({'iadd': 'HIadd', 'add': 'HAdd', 'radd': 'HRadd', 'eq': 'HEq'}[k], coq_bs(h['t']))
+    if k == 'data':
+        return '(HData %s)' % coq_bs(h['d'])
+    if k == 'trans':
+        return '(HTrans %s)' % coq_trans(h['m'])
+    if k == 'other':
+        return '(HOther %s %s %s)' % (coq_bs(h['d']), coq_gap(h['gap']), coq_ix(h['ix']))
+    return {'reverse': 'HReverse', 'len': 'HLen', 'gc': 'HGc'}[k]
+
+
+def coq_bstep(h):
+    k = h['k']
+    if k == 'geti':
+        return '(BHGetI %s)' % coq_z(h['i'])
+    if k == 'getsl':
+        return '(BHGetSl %s)' % coq_sl(h['sl'])
+    if k == 'getij':
+        return '(BHGetIJ %s %s %s)' % (coq_gap(h['gap']), coq_z(h['i']), coq_ix(h['j']))
+    if k == 'getslj':
+        return '(BHGetSlJ %s %s %s)' % (coq_gap(h['gap']), coq_sl(h['sl']), coq_ix(h['j']))
+    if k == 'seti':
+        return '(BHSetI %s %s)' % (coq_z(h['i']), coq_bs(h['v']))
+    if k == 'setcopy':
+        return '(BHSetCopy %s %s)' % (coq_z(h['i']), coq_z(h['k2']))
+    if k == 'setx':
+        return '(BHSetX %s)' % coq_z(h['i'])
+    if k == 'setsl':
+        return '(BHSetSl %s %s)' % (coq_sl(h['sl']), coq_strs(h['vs']))
+    if k == 'setslj':
+        return '(BHSetSlJ %s %s %s)' % (coq_sl(h['sl']), coq_ix(h['j']), coq_bs(h['v']))
+    if k == 'setij':
+        return '(BHSetIJ %s %s %s)' % (coq_z(h['i']), coq_ix(h['j']), coq_bs(h['v']))
+    if k == 'xset':
+        return '(BHXSet %s %s)' % (coq_ix(h['ix']), coq_bs(h['v']))
+    if k == 'xtrans':
+        return '(BHXTrans %s)' % coq_trans(h['m'])
+    if k == 'rowreverse':
+        return '(BHRowReverse %s)' % coq_z(h['i'])
+    return {'xreverse': 'BHXReverse', 'upperall': 'BHUpperAll', 'count': 'BHCount'}[k]
 
 
 def split_model(case, m):
@@ -140,8 +214,15 @@ def impl(case):
     op = case['op']
     if op == 'str':
         return None
+    if op == 'hist':
+        return _run_hist(case)
+    if op == 'bhist':
+        return _run_bhist(case)
     if op == 'len':
-        return len(_mkseq(case))
+        seq = _mkseq(case)
+        for bad in (1.5, None, (0, 1), [0], b'0'):             # type confusion: same TypeError as str indexing
+            assert _try(lambda: seq[bad]) == _try(lambda: seq.data[bad]) == {'e': 'TypeError'}, 'index type %r' % (bad,)
+        return len(seq)
     if op == 'eq':
         seq = _mkseq(case)
         r = seq == case['t']
@@ -183,7 +264,10 @@ def impl(case):
         seq = _mkseq(case)
         r = seq + case['t']
         r2 = seq + _raw(BioSeq, case['t'])                     # a BioSeq operand goes through str(other)
-        assert r is not seq and seq.data == case['s'].upper() and r2.data == r.data
+        other = _raw(BioSeq, case['t'])
+        other.id = 'another'                                   # different metadata: a warning, same residues
+        r3 = seq + other
+        assert r is not seq and seq.data == case['s'].upper() and r2.data == r.data and _seq(r3) == _seq(r)
         return _seq(r)
     if op == 'radd':
         seq = _mkseq(case)
@@ -195,6 +279,11 @@ def impl(case):
         keep = seq
         seq += case['t']
         assert seq is keep
+        seq2 = _mkseq(case)
+        other = _raw(BioSeq, case['t'])
+        other.id = 'another'
+        seq2 += other
+        assert _seq(seq2) == _seq(seq)
         return _seq(seq)
     if op == 'set':
         seq = _mkseq(case)
@@ -218,10 +307,20 @@ def impl(case):
         assert set(prob) == set(cnt) and all(prob[k] == cnt[k] / total for k in cnt), 'prob'
         if len(case['b']) == 1:
             assert BioSeq(case['b'][0]).countall() == cnt
+        if total and case.get('df'):
+            df = b.countall(rtype='df')                        # per-sequence table: count, prob (within id), tprob (overall)
+            rows = sorted((r['id'], r['letter'], int(r['count']), float(r['prob']), float(r['tprob'])) for r in df.to_dict('records'))
+            exp = sorted(('s%d' % k, ch, d.upper().count(ch), d.upper().count(ch) / len(d), d.upper().count(ch) / total)
+                         for k, d in enumerate(case['b']) for ch in set(d.upper()))
+            assert rows == exp, 'countall(rtype="df")'
         return [sorted([k, v] for k, v in cnt.items()), total]
     b = _mkbasket(case['b'])
     objs = list(b.data)
     if op == 'bgeti':
+        lst = list(case['b'])
+        for bad in ((1.5, 0), (0, 1, 2), (), (None, 0)):       # index shapes that are not supported: TypeError like a list
+            assert _try(lambda: b[bad]) == _try(lambda: lst[bad]) == {'e': 'TypeError'}, 'basket index %r' % (bad,)
+            assert _try(lambda: b.__setitem__(bad, 'A')) == {'e': 'TypeError'}, 'basket assignment index %r' % (bad,)
         r = b[case['i']]
         assert any(r is o for o in objs)
         return _seq(r)
@@ -252,6 +351,152 @@ def impl(case):
         assert all(x is o for x, o in zip(b.data, objs)) and len(b) == len(objs)
         return [_seq(x) for x in b]
     raise ValueError(op)
+
+
+ERRS = (IndexError, ValueError, TypeError)
+
+
+def _table(m):
+    return {ord(a): b for a, b in m}
+
+
+def _count_obs(basket):
+    cnt = basket.countall()
+    return [sorted([k, v] for k, v in cnt.items()), sum(cnt.values())]
+
+
+def _run_hist(case):
+    """Several calls on ONE BioSeq object; after every step the observation and the current (data, id) are recorded.
+    Not-in-place calls are made twice and once on a fresh object (results must agree); their results are then
+    mutated in place, which must not show in the object or in a repetition of the call."""
+    from sugar import BioSeq
+    seq = BioSeq(case['s'], id='x')
+    out = []
+    for h in case['steps']:
+        k = h['k']
+        obs = note = None
+        try:
+            if k in ('get', 'other'):
+                target = seq if k == 'get' else BioSeq(h['d'], id='x')
+                ix = py_ix(h['ix'])
+                before = target.data
+                first = _try(lambda: _sub(target, h['gap'])[ix])
+                second = _try(lambda: _sub(target, h['gap'])[ix])
+                fresh = _try(lambda: _sub(_raw(BioSeq, before), h['gap'])[ix])
+                canon = lambda r: r if isinstance(r, dict) else _seq(r)
+                obs = canon(first)
+                if not (canon(first) == canon(second) == canon(fresh)):
+                    note = 'same call gives %r, repeated %r, on a fresh object with the same data %r' % (obs, canon(second), canon(fresh))
+                if not isinstance(first, dict):
+                    first.data = first.data[::-1] + 'Q'          # mutate the results in place
+                    if not isinstance(second, dict):
+                        second.str.lower()
+                    if not (target.data == before and canon(_try(lambda: _sub(target, h['gap'])[ix])) == obs):
+                        note = note or 'editing the result in place changed the operand or a repetition of the call'
+            elif k == 'getin':
+                kw = {} if h['gap'] is None else {'gap': h['gap']}
+                r = seq.sl(inplace=True, **kw)[py_ix(h['ix'])]
+                obs = _seq(r)
+                assert r is not seq
+                r.data = r.data + 'Q'                        # the returned object is not the sequence itself
+            elif k == 'set':
+                seq[py_ix(h['ix'])] = h['v']
+            elif k == 'iadd':
+                keep = seq
+                seq += h['t']
+                assert seq is keep
+            elif k == 'data':
+                seq.data = h['d']
+            elif k == 'reverse':
+                assert seq.reverse() is seq
+            elif k == 'trans':
+                assert seq.str.translate(_table(h['m'])) is seq
+            elif k in ('add', 'radd'):
+                before = seq.data
+                f = (lambda: seq + h['t']) if k == 'add' else (lambda: h['t'] + seq)
+                r = f()
+                obs = _seq(r)
+                r.data = 'Q' + r.data[::-1]
+                r += 'ZZ'
+                assert seq.data == before and _seq(f()) == obs, 'result of + aliases its operand'
+            elif k == 'len':
+                obs = len(seq)
+            elif k == 'eq':
+                obs = seq == h['t']
+            elif k == 'gc':
+                GC = sum(1 for ch in seq.data if ch in 'GC')
+                AT = sum(1 for ch in seq.data if ch in 'ATU')
+                g = seq.gc
+                assert (g == GC / (GC + AT)) if GC + AT else g == 0, 'gc'
+                obs = [GC, GC + AT]
+            else:
+                raise KeyError(k)
+        except ERRS as e:
+            obs = _exc(e)
+        out.append([obs, _seq(seq)] + ([note] if note else []))
+    return out
+
+
+def _run_bhist(case):
+    """Several calls on ONE BioBasket and one outside BioSeq x; state after every step is recorded."""
+    from sugar import BioSeq, BioBasket
+    b = _mkbasket(case['b'])
+    x = BioSeq(case['x'], id='x')
+    out = []
+    for h in case['steps']:
+        k = h['k']
+        obs = None
+        try:
+            if k == 'geti':
+                obs = _seq(b[h['i']])
+            elif k == 'getsl':
+                r = b[py_ix(h['sl'])]
+                obs = [_seq(y) for y in r]
+                r.data.append(BioSeq('ZZ'))                      # the new basket is a new list
+                r.data.reverse()
+            elif k == 'getij':
+                r = _sub(b, h['gap'])[h['i'], py_ix(h['j'])]
+                obs = _seq(r)
+                r.data = 'Q' + r.data
+            elif k == 'getslj':
+                r = _sub(b, h['gap'])[py_ix(h['sl']), py_ix(h['j'])]
+                obs = [_seq(y) for y in r]
+                for y in r:
+                    y.data = y.data[::-1] + 'Q'
+                r.data[:] = []
+            elif k == 'seti':
+                b[h['i']] = h['v']
+            elif k == 'setcopy':
+                b[h['i']] = b[h['k2']]
+            elif k == 'setx':
+                b[h['i']] = x
+            elif k == 'setsl':
+                vs = list(h['vs'])
+                b[py_ix(h['sl'])] = vs
+                vs.append('ZZ')
+            elif k == 'setslj':
+                b[py_ix(h['sl']), py_ix(h['j'])] = h['v']
+            elif k == 'setij':
+                b[h['i'], py_ix(h['j'])] = h['v']
+            elif k == 'xset':
+                x[py_ix(h['ix'])] = h['v']
+            elif k == 'xreverse':
+                x.reverse()
+            elif k == 'xtrans':
+                x.str.translate(_table(h['m']))
+            elif k == 'rowreverse':
+                b[h['i']].reverse()
+            elif k == 'upperall':
+                assert b.str.upper() is b
+            elif k == 'count':
+                obs = _count_obs(b)
+                assert obs == _count_obs(b)
+            else:
+                raise KeyError(k)
+        except ERRS as e:
+            obs = _exc(e)
+        out.append([obs, [_seq(y) for y in b], _seq(x)])
+    return out
 
 
 # ----------------------------------------------------------------------------- property oracle (builtin str / list only)
@@ -304,6 +549,10 @@ def spec(case, got):
     up = lambda s: s.upper()
     if op == 'str':
         return None          # decided in extra_checks (Python against Python); the record carries the reason
+    if op == 'hist':
+        return _spec_hist(case, got)
+    if op == 'bhist':
+        return _spec_bhist(case, got)
     if op in ('len', 'eq', 'eqseq', 'add', 'radd', 'iadd', 'set', 'gc') and isinstance(got, dict) and op != 'set':
         return 'raised %s' % got['e']
     if op == 'len':
@@ -422,6 +671,190 @@ def spec(case, got):
     return None
 
 
+def _gc_expect(cur):
+    gcn = len([c for c in cur if c == 'G' or c == 'C'])
+    atn = len([c for c in cur if c in ('A', 'T', 'U')])
+    return [gcn, gcn + atn]
+
+
+def _spec_hist(case, got):
+    """The same history on a plain Python str."""
+    if isinstance(got, dict):
+        return 'history raised %s' % got['e']
+    cur = case['s'].upper()
+    for n, (h, g) in enumerate(zip(case['steps'], got)):
+        k = h['k']
+        obs, state = g[0], g[1]
+        where = 'step %d (%s): ' % (n, k)
+        exp_obs = None
+        if k == 'get' or k == 'other':
+            res = cur if k == 'get' else h['d'].upper()
+            if not isinstance(obs, dict):
+                if obs[1] != 'x':
+                    return where + 'id lost'
+                obs = obs[0]
+            m = _cmp_get(res, h['gap'], h['ix'], obs)
+            if m:
+                return where + m + ' on %r' % res
+            obs = exp_obs
+        elif k == 'getin':
+            if not isinstance(obs, dict):
+                if obs[1] != 'x':
+                    return where + 'id lost'
+                obs = obs[0]
+            m = _cmp_get(cur, h['gap'], h['ix'], obs)
+            if m:
+                return where + m + ' on %r' % cur
+            if not isinstance(obs, dict):
+                cur = obs                                    # in place: the sequence now holds the selected part
+            obs = exp_obs
+        elif k == 'set':
+            r = _set_expect(cur, h['ix'], h['v'])
+            if isinstance(r, dict):
+                exp_obs = r
+            else:
+                cur = r
+        elif k == 'iadd':
+            cur = cur + h['t']
+        elif k == 'data':
+            cur = h['d']
+        elif k == 'reverse':
+            cur = cur[::-1]
+        elif k == 'trans':
+            cur = cur.translate(_table(h['m']))
+        elif k == 'add':
+            exp_obs = [cur + h['t'], 'x']
+        elif k == 'radd':
+            exp_obs = [h['t'] + cur, 'x']
+        elif k == 'len':
+            exp_obs = len(cur)
+        elif k == 'eq':
+            exp_obs = cur == h['t']
+        elif k == 'gc':
+            exp_obs = _gc_expect(cur)
+        if obs != exp_obs:
+            return where + 'str gives %r, BioSeq %r' % (exp_obs, obs)
+        if state != [cur, 'x']:
+            return where + 'sequence holds %r, the str history gives %r' % (state, [cur, 'x'])
+        if len(g) > 2:
+            return where + str(g[2])
+    return None
+
+
+def _spec_bhist(case, got):
+    """The same history on a plain list of [str, id] pairs."""
+    if isinstance(got, dict):
+        return 'history raised %s' % got['e']
+    lst = [[d.upper(), 's%d' % k] for k, d in enumerate(case['b'])]
+    x = [case['x'].upper(), 'x']
+    for n, (h, g) in enumerate(zip(case['steps'], got)):
+        k = h['k']
+        obs, state, xstate = g
+        where = 'step %d (%s): ' % (n, k)
+        exp = None
+        relational = None
+        skip = False
+        if k == 'geti':
+            exp = _try(lambda: list(lst[h['i']]))
+        elif k == 'getsl':
+            exp = _try(lambda: [list(p) for p in lst[py_ix(h['sl'])]])
+        elif k == 'getij':
+            sel = _try(lambda: lst[h['i']])
+            if isinstance(sel, dict):
+                exp = sel
+            else:
+                if isinstance(obs, list) and obs[1] != sel[1]:
+                    return where + 'wrong sequence'
+                relational = _cmp_get(sel[0], h['gap'], h['j'], obs if isinstance(obs, dict) else obs[0])
+                skip = True
+        elif k == 'getslj':
+            sel = _try(lambda: lst[py_ix(h['sl'])])
+            if isinstance(sel, dict):
+                exp = sel
+            else:
+                firsterr = None
+                for p in sel:
+                    kind, e = _expect_get(p[0], h['gap'], h['j'])
+                    if isinstance(e, dict):
+                        firsterr = e
+                        break
+                if firsterr is not None or isinstance(obs, dict):
+                    relational = None if obs == firsterr else 'expected %r got %r' % (firsterr, obs)
+                    skip = True
+                else:
+                    skip = True
+                    if [o[1] for o in obs] != [p[1] for p in sel]:
+                        return where + 'wrong sequences'
+                    relational = next((m for m in (_cmp_get(p[0], h['gap'], h['j'], o[0]) for p, o in zip(sel, obs)) if m), None)
+                    if len(obs) != len(sel):
+                        relational = 'wrong number of sequences'
+        elif k in ('seti', 'setcopy', 'setx'):
+            def f():
+                v = [h['v'].upper(), ''] if k == 'seti' else list(lst[h['k2']]) if k == 'setcopy' else list(x)
+                l = [list(p) for p in lst]
+                l[h['i']] = v
+                return l
+            r = _try(f)
+            if isinstance(r, dict):
+                exp = r
+            else:
+                lst = r
+        elif k == 'setsl':
+            def f():
+                l = [list(p) for p in lst]
+                l[py_ix(h['sl'])] = [[v.upper(), ''] for v in h['vs']]
+                return l
+            r = _try(f)
+            if isinstance(r, dict):
+                exp = r
+            else:
+                lst = r
+        elif k in ('setslj', 'setij'):
+            ks = _try(lambda: range(len(lst))[py_ix(h['sl']) if k == 'setslj' else h['i']])
+            if isinstance(ks, dict):
+                exp = ks
+            else:
+                for q in (ks if k == 'setslj' else [ks]):
+                    r = _set_expect(lst[q][0], h['j'], h['v'])
+                    if isinstance(r, dict):
+                        exp = r
+                        break
+                    lst[q] = [r, lst[q][1]]
+        elif k == 'xset':
+            r = _set_expect(x[0], h['ix'], h['v'])
+            if isinstance(r, dict):
+                exp = r
+            else:
+                x = [r, 'x']
+        elif k == 'xreverse':
+            x = [x[0][::-1], 'x']
+        elif k == 'xtrans':
+            x = [x[0].translate(_table(h['m'])), 'x']
+        elif k == 'rowreverse':
+            r = _try(lambda: range(len(lst))[h['i']])
+            if isinstance(r, dict):
+                exp = r
+            else:
+                lst[r] = [lst[r][0][::-1], lst[r][1]]
+        elif k == 'upperall':
+            lst = [[p[0].upper(), p[1]] for p in lst]
+        elif k == 'count':
+            if not lst:
+                exp = obs          # property silent on the empty basket
+            else:
+                allres = ''.join(p[0] for p in lst)
+                exp = [sorted([ch, allres.count(ch)] for ch in set(allres)), len(allres)]
+        if relational:
+            return where + relational
+        if not skip and obs != exp:
+            return where + 'list of str gives %r, BioBasket %r' % (exp, obs)
+        if state != lst:
+            return where + 'basket holds %r, the list history gives %r' % (state, lst)
+        if xstate != x:
+            return where + 'outside sequence holds %r, expected %r' % (xstate, x)
+    return None
+
+
 # ----------------------------------------------------------------------------- evidence helpers
 
 def _ix_marks(ix, n):
@@ -457,6 +890,8 @@ def nontrivial(case, got):
             marks.add('gap')
     elif op == 'box':
         marks.add('box')
+    elif op == 'hist':
+        marks.add('hist')
     elif op in ('set',):
         marks |= _ix_marks(case['ix'], len(case['s']))
         marks.add('set')
@@ -477,6 +912,9 @@ def histkey(case, got):
         ks.append('len=' + ('0' if n == 0 else '1-5' if n <= 5 else '6-20' if n <= 20 else '21+'))
     if 'b' in case:
         ks.append('basket=%d' % len(case['b']))
+    if 'steps' in case and case['op'] in ('hist', 'bhist'):
+        ks.append('history_steps=%d' % len(case['steps']))
+        ks += ['%s:%s' % (case['op'], k) for k in sorted(set(h['k'] for h in case['steps']))]
     if case.get('gap') is not None:
         ks.append('gap')
     if isinstance(got, dict):
@@ -636,8 +1074,8 @@ def gen_cases(rng, tier):
         if isinstance(ix, dict) and ix['c'] not in (None, 1, 0) and rng.random() < 0.7:
             v = _rs(rng, len(range(len(s))[py_ix(ix)]), 'ACGTN-')     # matching size for an extended slice
         cases.append({'op': 'set', 's': s, 'ix': ix, 'v': v})
-    for _ in range(80 * k):
-        cases.append({'op': 'count', 'b': _rbasket(rng)})
+    for n_ in range(80 * k):
+        cases.append({'op': 'count', 'b': _rbasket(rng), 'df': n_ % 8 == 0})
     for _ in range(400 * k):
         b = _rbasket(rng)
         n = len(b)
@@ -666,7 +1104,135 @@ def gen_cases(rng, tier):
                 cnt = len(range(n)[py_ix(c['sl'])])
             c['vs'] = [_rstring(rng)[:6] for _ in range(cnt)]
         cases.append(c)
+    # --- histories: state carried between calls, shared objects (kept in the quick tier)
+    for _ in range(300 * (4 if thorough else 1)):
+        cases.append(_gen_hist(rng))
+    for _ in range(300 * (4 if thorough else 1)):
+        cases.append(_gen_bhist(rng))
     return cases
+
+
+# ----------------------------------------------------------------------------- histories (state independence)
+
+GAPPED = 'ACGT--'
+
+
+def _rtrans(rng):
+    m = rng.choice([[['-', 'A'], ['A', '-']], [['-', 'C'], ['C', '-'], ['G', 'T']], [['A', 'T'], ['T', 'A']], [['-', '.'], ['.', '-']], []])
+    return [list(p) for p in m]
+
+
+def _same_len_edit(rng, n):
+    """A step that keeps the length of an n-residue sequence but may move its gaps."""
+    r = rng.random()
+    if r < 0.3 and n:
+        return {'k': 'set', 'ix': rng.randint(-n, n - 1), 'v': rng.choice('ACG--')}
+    if r < 0.45:
+        return {'k': 'reverse'}
+    if r < 0.65:
+        return {'k': 'trans', 'm': _rtrans(rng)}
+    if r < 0.85:
+        return {'k': 'data', 'd': ''.join(rng.sample(_rs(rng, n, GAPPED), n))}
+    a = rng.randint(0, n)
+    b2 = rng.randint(a, n)
+    return {'k': 'set', 'ix': {'a': a, 'b': b2, 'c': None}, 'v': _rs(rng, b2 - a, 'AC-')}
+
+
+def _rhstep(rng, n):
+    r = rng.random()
+    gap = rng.choice(['-', '-', '-.', None])
+    if r < 0.30:
+        return {'k': 'get', 'gap': gap, 'ix': _rix(rng, n, contiguous=gap is not None)}
+    if r < 0.35:
+        return {'k': 'getin', 'gap': gap, 'ix': _rix(rng, n, contiguous=gap is not None)}
+    if r < 0.6:
+        return _same_len_edit(rng, n)
+    if r < 0.68:
+        return {'k': 'set', 'ix': _rix(rng, n), 'v': _rs(rng, rng.choice([0, 1, 2, 3]), 'ACGT-')}
+    if r < 0.74:
+        return {'k': 'iadd', 't': _rs(rng, rng.choice([0, 1, 3]), 'ACGT-')}
+    if r < 0.82:
+        return {'k': rng.choice(['add', 'radd']), 't': _rs(rng, rng.choice([0, 1, 3]), 'ACGT-')}
+    if r < 0.9:
+        return {'k': 'other', 'd': _rs(rng, n, GAPPED), 'gap': gap, 'ix': _rix(rng, n, contiguous=gap is not None)}
+    return rng.choice([{'k': 'len'}, {'k': 'gc'}, {'k': 'eq', 't': _rs(rng, n, GAPPED)}])
+
+
+def _gen_hist(rng):
+    n = rng.choice([3, 4, 5, 6, 8, 10])
+    s = _rs(rng, n, GAPPED)
+    r = rng.random()
+    if r < 0.45:
+        # (c): gap-aware call, length-preserving edit, the same call again; (b): other gap string in between
+        gap = rng.choice(['-', '-', '-.'])
+        ix = _rix(rng, n, contiguous=True)
+        steps = [{'k': 'get', 'gap': gap, 'ix': ix}]
+        for _ in range(rng.choice([1, 1, 2])):
+            steps.append(_same_len_edit(rng, n))
+            if rng.random() < 0.3:
+                steps.append({'k': 'get', 'gap': rng.choice([None, '.', 'A']), 'ix': ix})
+            steps.append({'k': 'get', 'gap': gap, 'ix': ix if rng.random() < 0.7 else _rix(rng, n, contiguous=True)})
+        if rng.random() < 0.4:
+            steps.append({'k': 'other', 'd': ''.join(rng.sample(s, n)), 'gap': gap, 'ix': ix})
+        return {'op': 'hist', 's': s, 'steps': steps}
+    return {'op': 'hist', 's': s, 'steps': [_rhstep(rng, n) for _ in range(rng.choice([3, 4, 6, 8]))]}
+
+
+def _rbstep(rng, nb, m):
+    r = rng.random()
+    i = lambda: rng.randint(-nb - 1, nb)
+    gap = rng.choice(['-', None, None])
+    if r < 0.10:
+        return {'k': 'geti', 'i': i()}
+    if r < 0.16:
+        return {'k': 'getsl', 'sl': _rslice(rng, nb)}
+    if r < 0.26:
+        return {'k': 'getij', 'gap': gap, 'i': i(), 'j': _rix(rng, m, gap is not None)}
+    if r < 0.36:
+        return {'k': 'getslj', 'gap': gap, 'sl': _rslice(rng, nb), 'j': _rix(rng, m, gap is not None)}
+    if r < 0.42:
+        return {'k': 'seti', 'i': i(), 'v': _rs(rng, rng.choice([0, 2, 4]), 'ACGT-')}
+    if r < 0.54:
+        return {'k': 'setcopy', 'i': i(), 'k2': i()}
+    if r < 0.62:
+        return {'k': 'setx', 'i': i()}
+    if r < 0.67:
+        sl = _rslice(rng, nb)
+        cnt = rng.choice([0, 1, 2])
+        if sl['c'] not in (None, 1, 0):
+            cnt = len(range(nb)[py_ix(sl)])
+        return {'k': 'setsl', 'sl': sl, 'vs': [_rs(rng, rng.choice([1, 3]), 'ACGT-') for _ in range(cnt)]}
+    if r < 0.75:
+        return {'k': 'setslj', 'sl': rng.choice([{'a': None, 'b': None, 'c': None}, _rslice(rng, nb)]), 'j': _rix(rng, max(m - 2, 0), True),
+                'v': _rs(rng, rng.choice([0, 1, 1, 2]), 'ACGT-')}
+    if r < 0.85:
+        return {'k': 'setij', 'i': i(), 'j': _rix(rng, max(m - 1, 0), True), 'v': _rs(rng, rng.choice([0, 1, 1, 2]), 'ACGT-')}
+    if r < 0.90:
+        return rng.choice([{'k': 'xset', 'ix': _rix(rng, m, True), 'v': _rs(rng, 1, 'ACGT-')}, {'k': 'xreverse'}, {'k': 'xtrans', 'm': _rtrans(rng)}])
+    if r < 0.96:
+        return {'k': 'rowreverse', 'i': i()}
+    return rng.choice([{'k': 'upperall'}, {'k': 'count'}])
+
+
+def _gen_bhist(rng):
+    nb = rng.choice([1, 2, 3, 4])
+    m = rng.choice([3, 4, 6])
+    b = [_rs(rng, rng.choice([m, m, m - 1]), GAPPED) for _ in range(nb)]
+    x = _rs(rng, m, GAPPED)
+    r = rng.random()
+    if r < 0.4:
+        # (e): put an existing object into the basket, edit through one holder, look through the other
+        i, k2 = rng.randrange(nb), rng.randrange(nb)
+        first = rng.choice([{'k': 'setcopy', 'i': i, 'k2': k2}, {'k': 'setx', 'i': i}])
+        edits = [{'k': 'setij', 'i': k2, 'j': rng.randrange(m - 1), 'v': 'N'}, {'k': 'rowreverse', 'i': k2},
+                 {'k': 'setij', 'i': i, 'j': 0, 'v': 'N'}, {'k': 'rowreverse', 'i': i}, {'k': 'xreverse'},
+                 {'k': 'xset', 'ix': 0, 'v': 'N'}, {'k': 'xtrans', 'm': [['A', 'T'], ['-', 'G']]},
+                 {'k': 'setslj', 'sl': {'a': None, 'b': None, 'c': None}, 'j': 0, 'v': 'N'}]
+        steps = [first] + rng.sample(edits, rng.choice([1, 2, 3])) + [{'k': 'getsl', 'sl': {'a': None, 'b': None, 'c': None}}]
+        if rng.random() < 0.5:
+            steps.insert(0, _rbstep(rng, nb, m))
+        return {'op': 'bhist', 'b': b, 'x': x, 'steps': steps}
+    return {'op': 'bhist', 'b': b, 'x': x, 'steps': [_rbstep(rng, nb, m) for _ in range(rng.choice([3, 4, 6, 8]))]}
 
 
 # ----------------------------------------------------------------------------- .str namespace, Python against Python
@@ -691,7 +1257,10 @@ def _str_args(rng, name, data):
         return rng.choice([None, '-', 'A', 'AC', '-.', '', ' ', 'ACGT'])
     if name in ('count', 'find', 'index', 'rfind', 'rindex', 'startswith', 'endswith'):
         k = rng.choice([0, 1, 2])
-        return (sub(),) + tuple(bound() for _ in range(k))
+        first = sub()
+        if name in ('startswith', 'endswith') and rng.random() < 0.3:
+            first = tuple(sub() for _ in range(rng.choice([0, 1, 2, 3])))      # "any of these affixes"
+        return (first,) + tuple(bound() for _ in range(k))
     if name in ('removeprefix', 'removesuffix'):
         return (rng.choice([data[:2], data[-2:], sub()]),)
     if name in ('center', 'ljust', 'rjust'):
@@ -718,6 +1287,40 @@ def _str_args(rng, name, data):
     return None
 
 
+# fixed argument combinations that are tried first for every method (option values that are easy to confuse:
+# count/maxsplit 0 and 1, not-found error paths, explicit None, bounds, fill characters)
+DIRECTED = {
+    'replace': [('ACGTACGA', ('A', 'X', 0)), ('ACGTACGA', ('A', 'X', 1)), ('ACGTACGA', ('A', 'X', -1)), ('ACGTACGA', ('A', 'X')),
+                ('ACGTACGA', ('AC', '', 2)), ('AAAA', ('', '-', 0)), ('AAAA', ('', '-', 2))],
+    'index': [('ACGTACGT', ('GG',)), ('ACGTACGT', ('A', 1)), ('ACGTACGT', ('A', 5)), ('ACGTACGT', ('T', 0, 3)), ('ACGT', ('',))],
+    'rindex': [('ACGTACGT', ('GG',)), ('ACGTACGT', ('A', 1)), ('ACGTACGT', ('A', 5)), ('ACGTACGT', ('T', 0, 3)), ('ACGT', ('', 9))],
+    'find': [('ACGTACGT', ('GG',)), ('ACGTACGT', ('A', 1)), ('ACGTACGT', ('A', 5)), ('ACGTACGT', ('A', None, None)), ('ACGTACGT', ('T', -5, -1))],
+    'rfind': [('ACGTACGT', ('GG',)), ('ACGTACGT', ('A', 1)), ('ACGTACGT', ('A', 5)), ('ACGTACGT', ('A', None, 4)), ('ACGTACGT', ('T', -5, -1))],
+    'count': [('AAAA', ('A', 1, 3)), ('AAAA', ('A', None, None)), ('AAAA', ('AA',)), ('AAAA', ('', 1)), ('AAAA', ('A', -2)), ('AAAA', ('A', 0, 0))],
+    'startswith': [('ACGT', ('AC', 1)), ('ACGT', ('CG', 1)), ('ACGT', ('AC', 0, 1)), ('ACGT', ('',)), ('ACGT', (('AC', 'GT'),)),
+                   ('ACGT', (('GT', 'CG'), 1)), ('ACGT', ((),)), ('ACGT', (('GT', 'TT'),))],
+    'endswith': [('ACGT', ('GT', 0, 3)), ('ACGT', ('CG', 0, 3)), ('ACGT', ('GT', 3)), ('ACGT', ('',)), ('ACGT', (('AC', 'GT'),)),
+                 ('ACGT', (('AC', 'CG'), 0, 3)), ('ACGT', ((),)), ('ACGT', (('AC', 'AA'),))],
+    'split': [('A-C-G', ('-', 0)), ('A-C-G', ('-', 1)), ('A-C-G', ('-', -1)), ('A C  G', ()), ('A C  G', (None, 1)), ('A-C', ('',))],
+    'rsplit': [('A-C-G', ('-', 0)), ('A-C-G', ('-', 1)), ('A-C-G', ('-', -1)), ('A C  G', ()), ('A C  G', (None, 1)), ('A-C', ('',))],
+    'splitlines': [('A\nC\r\nG', ()), ('A\nC\r\nG', (True,)), ('A\nC\r\nG', (False,))],
+    'strip': [('--AC--', ('-',)), (' AC ', ()), (' AC ', (None,)), ('-.AC.-', ('.-',)), ('AC', ('',))],
+    'lstrip': [('--AC--', ('-',)), (' AC ', ()), (' AC ', (None,)), ('-.AC.-', ('.-',))],
+    'rstrip': [('--AC--', ('-',)), (' AC ', ()), (' AC ', (None,)), ('-.AC.-', ('.-',))],
+    'center': [('AC', (5,)), ('AC', (5, '-')), ('AC', (1,)), ('AC', (4, 'N')), ('ACG', (6, '-'))],
+    'ljust': [('AC', (5,)), ('AC', (5, '-')), ('AC', (1,))],
+    'rjust': [('AC', (5,)), ('AC', (5, '-')), ('AC', (1,))],
+    'removeprefix': [('ACGT', ('AC',)), ('ACGT', ('GT',)), ('ACGT', ('',)), ('ACAC', ('AC',))],
+    'removesuffix': [('ACGT', ('GT',)), ('ACGT', ('AC',)), ('ACGT', ('',)), ('GTGT', ('GT',))],
+    'translate': [('AC-GT', ({65: 'T', 45: None},)), ('AC-GT', ({65: 'NN'},)), ('AC-GT', (str.maketrans('ACGT', 'TGCA'),))],
+    'encode': [('ACGT', ()), ('ACGT', ('ascii',)), ('ACGT', ('utf-16',)), ('ACGT', ('utf-8', 'ignore')), ('ACGT', ('nonsense-codec',))],
+    'lower': [('ACgt-', ())], 'upper': [('ACgt-', ())], 'swapcase': [('ACgt-', ())],
+    'isalpha': [('ACGT', ()), ('AC-T', ()), ('', ())], 'isascii': [('ACGT', ()), ('', ())],
+    'islower': [('acgt', ()), ('acGt', ()), ('--', ())], 'isupper': [('ACGT', ()), ('acGt', ()), ('--', ())],
+    'maketrans': [('', ('AC', 'TG')), ('', ({'A': 'T'},)), ('', ('A', 'T', '-')), ('', ('AC', 'T'))],
+}
+
+
 def extra_checks(rng, tier, cov):
     from sugar import BioSeq, BioBasket
     from sugar.core.seq import _BioSeqStr
@@ -728,19 +1331,26 @@ def extra_checks(rng, tier, cov):
     for n in missing_in_str:
         yield _viol({'op': 'str', 'name': n}, 'method not in builtin str', '.str method %s has no str counterpart' % n)
     reps = 200 if tier == 'thorough' else 25
-    ncalls = nid = nbasket = 0
+    ncalls = nid = nbasket = ndirected = 0
     for name in names:
         if not hasattr(str, name):
             continue
-        for _ in range(reps):
-            data = rng.choice([_rs(rng, rng.choice([0, 1, 3, 8, 20]), 'ACGT-'), _rs(rng, rng.choice([2, 6]), 'AC-- '),
-                               'acgt' + _rs(rng, 3, 'ACgt'), '--AC-GT--', ' AC\nGT\t', _rs(rng, 5, 'ACGT') + '\n' + _rs(rng, 3, 'ACGT')])
-            args = _str_args(rng, name, data)
-            if args is None:
-                args = ()
-            wrap = rng.random() < 0.3      # pass BioSeq objects where a str is expected (the wrapper applies str())
-            wargs = tuple(_raw(BioSeq, a) if (wrap and isinstance(a, str) and name not in ('center', 'ljust', 'rjust', 'encode', 'maketrans')) else a
-                          for a in args)
+        directed = list(DIRECTED.get(name, []))
+        ndirected += len(directed)
+        for rep in range(len(directed) + reps):
+            if rep < len(directed):
+                data, args = directed[rep]
+                wrap = False
+            else:
+                data = rng.choice([_rs(rng, rng.choice([0, 1, 3, 8, 20]), 'ACGT-'), _rs(rng, rng.choice([2, 6]), 'AC-- '),
+                                   'acgt' + _rs(rng, 3, 'ACgt'), '--AC-GT--', ' AC\nGT\t', _rs(rng, 5, 'ACGT') + '\n' + _rs(rng, 3, 'ACGT')])
+                args = _str_args(rng, name, data)
+                if args is None:
+                    args = ()
+                wrap = rng.random() < 0.3      # pass BioSeq objects where a str is expected (the wrapper applies str())
+            wargs = tuple(_raw(BioSeq, a) if (wrap and isinstance(a, str) and name not in ('center', 'ljust', 'rjust', 'encode', 'maketrans'))
+                          else tuple(_raw(BioSeq, y) for y in a) if (wrap and isinstance(a, tuple) and name in ('startswith', 'endswith'))
+                          else a for a in args)
             case = {'op': 'str', 'name': name, 'data': data, 'args': repr(args), 'wrapped_args': wrap}
             seq = _raw(BioSeq, data)
             exp = _try(lambda: getattr(str, name)(data, *args)) if name != 'maketrans' else _try(lambda: str.maketrans(*args))
@@ -799,6 +1409,7 @@ def extra_checks(rng, tier, cov):
                 yield _viol(dict(case, basket=datas), repr(gotb)[:200], whyb)
                 break
     cov['str_wrapper_calls'] = ncalls
+    cov['str_directed_argument_sets'] = ndirected
     cov['str_identity_checks'] = nid
     cov['str_basket_calls'] = nbasket
     if tier == 'thorough':
@@ -815,17 +1426,25 @@ def _raw(BioSeq, data):
     return s
 
 
-LEVEL_TEXT = ('Machine-checked Coq theorems, for every list/str and every integer or None bound: CPython slice normalisation '
-              '(PySlice_AdjustIndices) yields firstn/skipn of the clamped bounds for contiguous slices, the slice-length formula and the '
-              'element law r[k] = s[start + k*step] for every step, s[::-1] = rev s, s[:k] + s[k:] = s, the negative-index law; '
-              'BioSeq indexing/slicing, len, ==, +, +=, right +, item assignment equal the str/list operation on the residue string; '
-              'gap-aware contiguous slicing selects exactly the residues of the degapped slice for all bounds; the .str wrappers return '
-              'the str result / update in place (parametric in the method); BioBasket two-axis indexing composes the two; letter counts, '
-              'totals and GC numerator/denominator equal the character counts. The model is tied to sugar by differential testing '
-              '(exhaustive box over {A,C,-}^<=5 x {None,-7..7}^3 in the thorough tier) and the .str methods are compared against builtin str.')
+LEVEL_TEXT = ('Machine-checked Coq theorems (31, all closed under the global context), for every list/str and every integer or None bound: '
+              'CPython slice normalisation (PySlice_AdjustIndices) yields firstn/skipn of the clamped bounds for contiguous slices, the '
+              'slice-length formula and the element law r[k] = s[start + k*step] for every step, s[::-1] = rev s, s[:k] + s[k:] = s, the '
+              'negative-index law; BioSeq indexing/slicing, len, ==, +, +=, right + equal the str operation on the residue string; item '
+              'assignment equals list assignment + join for every slice (contiguous: splice; extended: ValueError unless sizes match, '
+              'else element-wise); gap-aware contiguous slicing selects exactly the residues of the degapped slice for all bounds, gap-aware '
+              'int indexing the i-th residue; the .str wrappers return the str result / update in place (parametric in the method); '
+              'BioBasket: seqs[i,j], seqs[a:b:c,j] compose the two axes, seqs[i,j] = x, seqs[a:b:c,j] = x assign on exactly the selected '
+              'sequences (every first-axis slice), seqs[i] = x and seqs[a:b:c] = xs are list assignment of new sequences; letter counts, '
+              'totals, probabilities (sum 1) and GC content as exact rationals equal the character counts. The model is tied to sugar by '
+              'differential testing (exhaustive box over {A,C,-}^<=5 x {None,-7..7}^3 in the thorough tier, random cases, 600 multi-step '
+              'histories on shared objects in the quick tier) and the .str methods are compared against builtin str.')
 LEVEL_NOTE = ('Trusted: Coq kernel/vm_compute, the correspondence harness, CPython str/list subscripting as modelled in C04_PySlice.v '
-              '(compared on every case), the str methods themselves (only the wrapping is proved). Modelled rather than verified: the '
-              'listed seq.py methods; str restricted to ASCII; metadata reduced to the id. Domain restrictions: gap-aware slicing only '
-              'contiguous; seq + x only for x without lower case (the constructor upper-cases, += does not). '
-              'All theorems closed under the global context.')
+              '(compared on every case), the ~29 str methods themselves (only the wrapping is proved; behaviour compared Python-against-'
+              'Python with directed and random arguments, return identity tested). Tested only: object identity (is seq / is basket), '
+              'absence of aliasing/state between calls (history stream), floats of gc/prob (driver recomputes the one IEEE division), '
+              'countall(rtype="df"). Modelled rather than verified: the seq.py functions in MODELLED_FUNCS; str restricted to ASCII; '
+              'metadata reduced to the id. Domain restrictions: gap-aware slicing only contiguous; seq + x only for x without lower case '
+              '(the constructor upper-cases, += does not). '
+              'Lines of modelled functions not reached because they belong to other properties: seq.py:219 (mapping '
+              'constructor, C14), 451-460 (feature/location indexing, C06), 480-487 (update_fts, C06), 853-854 (basket[str/feature], C06).')
 TECHNIQUE = 'Coq proof over an executable Gallina model + differential correspondence (exhaustive small box, random) + Python-vs-str relational checks'
